@@ -33,7 +33,8 @@ Section Translate.
 Variable d : dname.
 
 (* known bad, outside the model: an item whose SQL mentions no column of m (`sum(g.number for m in g.members)`, also
-   `sum((g.number if m.u in () else 1) for ...)` where `m.u in ()` is translated to the constant `0 = 1`): SQL attributes an aggregate
+   `sum((g.number if m.u in () else 1) for ...)` where `m.u in ()` is translated to the constant `0 = 1`, or a column of m that
+   occurs only under IS NULL / IS NOT NULL, which SQLite may fold away): SQL attributes an aggregate
    whose argument has outer references only to the OUTER query - finding collection-aggregate-of-outer-only-item.  (The sum of a
    boolean item is decoded as an int since repo commit 37ddc86.) *)
 Fixpoint qx_has_col (p : nat -> bool) (q : qx) : bool :=
@@ -41,6 +42,7 @@ Fixpoint qx_has_col (p : nat -> bool) (q : qx) : bool :=
   | QVal _ | QParam _ => false
   | QCol j => p j
   | QBin _ a b => qx_has_col p a || qx_has_col p b
+  | QUn (QIsNull | QIsNotNull) _ => false            (* SQLite folds `<NOT NULL column> IS NULL` to a constant before it scopes the aggregate *)
   | QUn _ a => qx_has_col p a
   | QAnd l | QOr l | QCoalesce l | QMinMax _ l => existsb (qx_has_col p) l
   | QIn _ a l => match l with [] => false | _ => qx_has_col p a || existsb (qx_has_col p) l end    (* the builder writes `0 = 1` / `1 = 1` for an empty list: a is not in the text *)
